@@ -8,7 +8,7 @@ LEVEL = "other"
 GEN = ["RxGen", "UnicodeGen", "InlineGen", "BlockGen", "UtilGen", "NormalizeGen"]
 COQ = ["Props/C05.vo"]
 EXPLANATION = (
-    "PARTIAL proof + oracle. Proved on the block parser model (coq/Model/Block.v, tied by skeletons with constants, BlockGen and the token-tree correspondence run of this check), for every text: the children of a list are list items, list items occur nowhere else, and the children of quotes and list items are again well-formed block tokens at every depth (C05_block_tree_is_well_typed; lifted through the inline pass to the whole AST of the document model, with heading levels 1-6, as C05_document_ast_is_well_typed; an invariant carried through every handler and loop, no assumption on the patterns); and every heading anywhere in the tree has a level between 1 and 6 (C05_heading_levels_are_1_to_6: the ATX level is the length of capture group 1 of a match of an ATX rule, and two analyses proved sound - a group's capture spans within given bounds, a group always participates - are evaluated on the regenerated ATX patterns, including the list-item scanner's variants). The token grammar (block vs inline position, raw xor children, no "
+    "PARTIAL proof + oracle. Proved on the block parser model (coq/Model/Block.v, tied by skeletons with constants, BlockGen and the token-tree correspondence run of this check), for every text: the children of a list are list items, list items occur nowhere else, and the children of quotes and list items are again well-formed block tokens at every depth (C05_block_tree_is_well_typed; lifted through the inline pass to the whole AST of the document model, with heading levels 1-6, as C05_document_ast_is_well_typed; quote/list nesting never exceeds max_nested_level (regenerated: 6) in the block tree and in the whole AST (C05_nesting_never_exceeds_the_maximum, C05_document_nesting_never_exceeds_the_maximum - the statement was false, of model and code alike, before fix 890925f: the proof attempt found the unbounded staircase of lone '-' lines); an invariant carried through every handler and loop, no assumption on the patterns); and every heading anywhere in the tree has a level between 1 and 6 (C05_heading_levels_are_1_to_6: the ATX level is the length of capture group 1 of a match of an ATX rule, and two analyses proved sound - a group's capture spans within given bounds, a group always participates - are evaluated on the regenerated ATX patterns, including the list-item scanner's variants). The token grammar (block vs inline position, raw xor children, no "
     "left-over 'text', heading levels 1-6, list/list_item typing with integer start, link/image url, table arity and "
     "alignment, nesting bound, JSON-serialisability) is checked by an independent Python validator on the token lists "
     "produced with renderer=None for generated documents under core, every plugin and both directive styles. Coq part "
@@ -231,6 +231,10 @@ def oracle(ctx, extra):
             # nesting pumps around the limit
             depth = r.randint(4, 9)
             doc = "".join(r.choice(["> ", "- ", "1. ", "* "]) for _ in range(depth)) + r.choice(["x", "-", "# h", "[a]: /u", "```\nc\n```", "| a |\n|-|\n"]) + "\n"
+            if r.random() < 0.3:
+                # staircase of lone markers below it (each line a continuation of the item above)
+                mark, step = r.choice(["-", "+", "*", "1.", "=", "- x", ">"]), r.choice([2, 3])
+                doc = "".join("> " * r.choice([0, 0, 3, 5]) + " " * (step * i) + mark + "\n" for i in range(r.randint(3, 12)))
         elif k < 0.9:
             doc = gen_docs.mutate(r, gen_docs.doc(r, plugins=plugins, directives=directives))
         else:
@@ -244,7 +248,7 @@ def oracle(ctx, extra):
     fails = [f for f in fails if not f.get("class")] + known[:3]
     return {"evaluations": n, "distinct_nontrivial": len(seen), "failures": fails, "known_finding_instances": len(known),
             "rule": "55% generated documents, 15% interrupt/lazy fragments, 10% container pumps of depth 4-9 ending in various "
-                    "blocks, 10% mutated, 10% noise; 5 configurations with renderer=None (core, all plugins, all+speedup+hardwrap, "
+                    "blocks or indentation staircases of lone markers, 10% mutated, 10% noise; 5 configurations with renderer=None (core, all plugins, all+speedup+hardwrap, "
                     "fenced directives, RST directives); token list validated against the grammar and json.dumps; distinct by text",
             "samples": [json.dumps(gen_docs.doc(ctx.rng('s'), plugins=gen_docs.ALL_PLUGINS))[:300]]}
 
